@@ -186,7 +186,7 @@ func (g *G) spanID() pcommon.SpanID {
 // near-duplicates (same keys, values differing only in type or in embedded
 // delimiters) are common.
 func (g *G) resource(r pcommon.Resource) {
-	switch g.w(2, 2, 2, 2, 2, 2, 3) {
+	switch g.w(2, 2, 2, 2, 2, 2, 2, 3) {
 	case 0: // empty resource
 	case 1:
 		r.Attributes().PutStr("k", "1")
@@ -200,7 +200,9 @@ func (g *G) resource(r pcommon.Resource) {
 		r.Attributes().PutStr("l", "b,c")
 	case 5:
 		r.Attributes().PutStr("k", "1")
-		r.SetDroppedAttributesCount(pick(g, u32Pool))
+		r.SetDroppedAttributesCount(uint32(1 + g.d(2)))
+	case 6:
+		r.SetDroppedAttributesCount(uint32(1 + g.d(2)))
 	default:
 		g.attrs(r.Attributes())
 		r.SetDroppedAttributesCount(pick(g, u32Pool))
@@ -208,7 +210,8 @@ func (g *G) resource(r pcommon.Resource) {
 }
 
 func (g *G) scope(s pcommon.InstrumentationScope) {
-	switch g.w(2, 2, 2, 2, 2, 3) {
+	// a family of near-identical scopes: the same base with one field perturbed
+	switch g.w(2, 2, 2, 2, 2, 2, 2, 3) {
 	case 0:
 	case 1:
 		s.SetName("lib")
@@ -221,6 +224,13 @@ func (g *G) scope(s pcommon.InstrumentationScope) {
 	case 4:
 		s.SetName("lib")
 		s.Attributes().PutInt("v", 1)
+	case 5:
+		s.SetName("lib")
+		s.SetDroppedAttributesCount(uint32(1 + g.d(2)))
+	case 6:
+		s.SetName("lib")
+		s.Attributes().PutStr("v", "1")
+		s.SetDroppedAttributesCount(uint32(g.d(3)))
 	default:
 		s.SetName(g.str())
 		s.SetVersion(g.str())
